@@ -10,6 +10,8 @@ def run():
                   vlib.model_check("LifeMC", "LifeMC.cfg", timeout=600))
     chk.add_model("WakeImpl (state word / queue protocol: SingleRunner, EnteredOnce with stale queue entries)",
                   vlib.model_check("WakeImpl", "WakeImpl.cfg", timeout=600))
+    rc = vlib.model_check("WakeImpl", "WakeImpl_cas_ignores_snapshot.cfg", expect_ok=False, timeout=600)
+    chk.add_model("WakeImpl/variant cas_ignores_snapshot (must violate)", rc, note="violated: %s" % rc["violated"])
     chk.add_model("YieldImpl (scheduling loop: pending / pending_boost yields, next-thread shortcut, 2 tasks x 3 phases)",
                   vlib.model_check("YieldImpl", "YieldImpl.cfg", timeout=600))
     ry = vlib.model_check("YieldImpl", "YieldImpl_dev.cfg", expect_ok=False, timeout=600)
